@@ -380,6 +380,9 @@ func exec(c StreamCase) (vh.Outcome, error) {
 	var calls []vh.Call
 	if rec != nil {
 		calls = rec.Take()
+		if cerr := rec.Corrupted(); cerr != nil {
+			return out, vh.Errf("after the stream was served: %v", cerr)
+		}
 	}
 	ci := 0
 	nextCall := func(op string) *vh.Call {
@@ -574,8 +577,17 @@ func TestC12Sizes(t *testing.T) {
 		sign = append(sign, 0, 0, 0, 0)
 		cases = append(cases, StreamCase{Frames: [][]byte{unknown, {11}, sign, {11}}, Kinds: []string{"unknown", "list", "sign", "list"}, Tail: "clean"})
 	}
+	// the largest legal frames: payloads of 16 MiB - 5 .. 16 MiB exactly (sign request with that much
+	// data; lock request with that long a passphrase), each followed by a list request
+	for p := 16<<20 - 5; p <= 16<<20; p++ {
+		data := bytes.Repeat([]byte{byte(p)}, p-(1+4+len(pub)+4+4))
+		sign := append(append([]byte{13}, sshString(pub)...), sshString(data)...)
+		sign = append(sign, 0, 0, 0, 0)
+		lock := append([]byte{22}, sshString(bytes.Repeat([]byte{'p'}, p-5))...)
+		cases = append(cases, StreamCase{Frames: [][]byte{sign, {11}, lock, {11}}, Kinds: []string{"sign", "list", "lock", "list"}, Tail: "clean"})
+	}
 	vh.Enumerate(t, vh.Spec[StreamCase]{Property: "C12", Name: "TestC12Sizes", Exhaustive: true,
-		Rule: "for every size n in 0..700 and around 1 KiB, 4 KiB, 16 KiB, 64 KiB, 1 MiB: a forwarded request with n body bytes (echoed: reply of n+2 bytes), a list request, a well-formed sign request with n data bytes, a list request; same oracle (byte-identical echo, one response each, in order)",
+		Rule: "for every size n in 0..700 and around 1 KiB, 4 KiB, 16 KiB, 64 KiB, 1 MiB: a forwarded request with n body bytes (echoed: reply of n+2 bytes), a list request, a well-formed sign request with n data bytes, a list request; plus the largest legal frames (payload 16 MiB - 5 .. 16 MiB exactly: a sign request with that much data and a lock request with that long a passphrase, each followed by a list request); same oracle (byte-identical echo, one response each, in order)",
 		Exec: exec}, cases)
 }
 
